@@ -587,14 +587,16 @@ func AppendBinaryValue(data []byte, fieldType uint8, value interface{}) ([]byte,
 				t = AppendUint32(t, microseconds)
 			}
 		case TypeDate:
-			// format: 2006-01-02
-			ts, err := time.Parse("2006-01-02", v)
-			if err != nil {
+			// format: 2006-01-02. MySQL can hold dates time.Parse refuses: a zero month or
+			// day (2024-00-00) and, with ALLOW_INVALID_DATES, 2024-02-31; only 0000-00-00
+			// (and, as before, anything that is not a date) is sent as the zero date
+			year, month, day, ok := stringToMysqlDate(v)
+			if !ok || (year == 0 && month == 0 && day == 0) {
 				t = append(t, 0)
 			} else {
 				t = append(t, 4)
-				t = AppendUint16(t, uint16(ts.Year()))
-				t = append(t, byte(int(ts.Month())), byte(ts.Day()))
+				t = AppendUint16(t, uint16(year))
+				t = append(t, byte(month), byte(day))
 			}
 		case TypeDuration:
 			timeValue, err := stringToMysqlTime(v)
